@@ -214,6 +214,63 @@ def run(ctx):
         if i == 3:
             samples.append({"schema": common.jval(schema), "config": common.jval(cfg),
                             "history": [call_json(c) for c in history], "probe": call_json(probe)})
+    # container-valued defaults: the schema's own object enters the document; whatever normalizes it afterwards (keysrules,
+    # valuesrules, schema, items -- at the root or in a child validator) must not write into the schema
+    mutable = 0
+    r = g.r
+    for i in range(n // 3):
+        kind = r.choice(['keysrules', 'valuesrules', 'dict-schema', 'list-schema', 'items', 'keys+values'])
+        kc = r.choice(['prefix_x', 'to_str', 'prefix_x'])
+        vc = r.choice(['inc', 'wrap', 'prefix_x', 'to_str'])
+        if kind == 'keysrules':
+            rules = {'type': 'dict', 'default': {'k': 1, 'l': 2}, 'keysrules': {'coerce': kc}}
+        elif kind == 'valuesrules':
+            rules = {'type': 'dict', 'default': {'k': 1, 'l': 'v'}, 'valuesrules': {'coerce': vc}}
+        elif kind == 'keys+values':
+            rules = {'type': 'dict', 'default': {'k': 1, 7: 'v'}, 'keysrules': {'coerce': kc}, 'valuesrules': {'coerce': vc}}
+        elif kind == 'dict-schema':
+            rules = {'type': 'dict', 'default': {'k': 1, 'm': {'p': 1}},
+                     'schema': {'k': r.choice([{'coerce': vc}, {'rename': 'n1'}, {'rename_handler': 'prefix_x'}]), 'z': {'default': [1]},
+                                'm': {'type': 'dict', 'keysrules': {'coerce': kc}}}}
+            if r.random() < 0.4:
+                rules['purge_unknown'] = True
+                rules['default']['q'] = 1
+        elif kind == 'list-schema':
+            rules = {'type': 'list', 'default': [1, {'k': 1}], 'schema': r.choice([{'coerce': vc}, {'keysrules': {'coerce': kc}}, {'valuesrules': {'coerce': vc}}])}
+        else:
+            rules = {'type': 'list', 'default': [1, {'k': 1}], 'items': [{'coerce': vc}, {'type': 'dict', 'keysrules': {'coerce': kc}}]}
+        where = r.choice(['root', 'dict-schema', 'list-of-dicts', 'valuesrules', 'items', 'unknown', 'deep'])
+        cfg = {}
+        if where == 'root':
+            schema, doc = {'f': rules, 'o': {}}, {'o': 1}
+        elif where == 'dict-schema':
+            schema, doc = {'s': {'type': 'dict', 'schema': {'f': rules, 'o': {}}}}, {'s': {'o': 1}}
+        elif where == 'list-of-dicts':
+            schema, doc = {'s': {'type': 'list', 'schema': {'type': 'dict', 'schema': {'f': rules}}}}, {'s': [{}, {}]}
+        elif where == 'valuesrules':
+            schema, doc = {'s': {'type': 'dict', 'valuesrules': {'type': 'dict', 'schema': {'f': rules}}}}, {'s': {'a': {}}}
+        elif where == 'items':
+            schema, doc = {'s': {'type': 'list', 'items': [{'type': 'dict', 'schema': {'f': rules}}]}}, {'s': [{}]}
+        elif where == 'unknown':
+            cfg = {'allow_unknown': {'type': 'dict', 'schema': {'f': rules}}}
+            schema, doc = {'o': {}}, {'u': {}}
+        else:
+            schema, doc = {'s': {'type': 'dict', 'schema': {'t': {'type': 'dict', 'schema': {'f': rules}}}}}, {'s': {'t': {}}}
+        apis = [("validate", doc, {}, None), ("normalized", doc, {}, None), ("validated", doc, {}, None),
+                ("validate", doc, {"update": True}, None)]
+        history = [r.choice(apis) for _ in range(r.randrange(1, 4))]
+        probe = r.choice(apis)
+        d, skip = history_oracle(schema, cfg, history, probe)
+        if skip:
+            dist["skipped_raise"] += 1
+            continue
+        mutable += 1
+        dist["container_default_%s_at_%s" % (kind, where)] += 1
+        if d:
+            violations.append({"signature": "history:" + d.split(" ")[0], "what": "(container-valued default, %s at %s) %s" % (kind, where, d),
+                               "replay": {"schema": common.jval(schema), "config": common.jval(cfg),
+                                          "history": [call_json(c) for c in history], "probe": call_json(probe)}})
+    checked += mutable
     # exhaustive histories of length <= 3 over a pool of 8 calls on fixed schemas
     exhaustive = 0
     pool_schema = {'a': {'type': 'integer', 'coerce': 'to_int', 'required': True, 'excludes': 'b'}, 'b': {'readonly': True, 'default': 1},
@@ -241,7 +298,8 @@ def run(ctx):
     dist["exhaustive_histories"] = exhaustive
     return {"violations": violations, "cases": checked + exhaustive, "nontrivial": checked + exhaustive, "model_cases": 0,
             "disagreements_checked": 0, "samples": samples, "distribution": dict(dist),
-            "rule": "random histories of 1-6 calls (validate/validated/normalized, mixed update/normalize flags, valid and invalid documents, None and "
+            "rule": "container-valued defaults (the schema's own object enters the document) normalized by keysrules / valuesrules / schema / items at the root "
+                    "and in every kind of child validator, processed 2-4 times on one instance; random histories of 1-6 calls (validate/validated/normalized, mixed update/normalize flags, valid and invalid documents, None and "
                     "non-mapping documents, accepted and rejected per-call schemas) on one instance followed by a probe, compared with the same probe on a "
                     "fresh instance of the schema in force: result, error keys, both trees node by node, processed document, rendered errors; plus all "
                     "histories of length <= %d over a pool of 10 calls (one of them reading the errors property) x 9 probes (two of them rejected before processing starts, (two of them per-call schemas that are ==-twins of one used before) on a schema with coerce/readonly/excludes/nested default setters. "
